@@ -1,4 +1,5 @@
 import OnetVerif.Model.C02
+import OnetVerif.Model.C04
 import OnetVerif.Shapes
 /-! Property C02 — handlers only see messages from the authenticated tree member they name. -/
 namespace C02
@@ -525,6 +526,44 @@ example :
     let s : Store := [(0, nodes4), (5, [⟨10, 0⟩, ⟨18, 8⟩])]
     run (instOf s 0 (some 10) 2 (fun _ => false)) (fun _ => [])
       [⟨3, some 18, some 8, 1, none⟩, ⟨3, some 12, some 2, 2, none⟩] = [[(⟨12, 2⟩, ⟨3, 12, some 2, 2⟩)]] := by decide
+
+/-! ### this model's `aggregate` is property C04's
+
+C02 carries its own copy of `TreeNodeInstance.aggregate` (over messages that still name their claimed sender and
+peer).  Seen through the map that forgets the peer and turns "claimed sender = my parent" into C04's "from the
+parent", it is C04's function step for step — so everything C04 proves about batches (one per round, complete,
+types and rounds never mixed) holds for the batches this model verifies. -/
+
+def toC04Cfg (i : Inst) : C04.Cfg := { isRoot := i.parent.isNone, nChildren := i.nChildren, agg := i.agg }
+
+def toC04Msg (i : Inst) (m : Msg) : C04.Msg :=
+  { ty := m.ty, src := if i.parent = some m.sender then none else some m.sender, val := m.val }
+
+theorem c02_aggregate_refines_c04 (i : Inst) (q : Queues) (m : Msg) :
+    C04.aggregate (toC04Cfg i) (fun t => (q t).map (toC04Msg i)) (toC04Msg i m) =
+      ((fun t => ((aggregate i q m).1 t).map (toC04Msg i)), (aggregate i q m).2.map (List.map (toC04Msg i))) := by
+  have hb : C04.bypass (toC04Cfg i) (toC04Msg i m) = ((i.parent == some m.sender) || !i.agg m.ty) := by
+    simp only [C04.bypass, C04.fromParent, toC04Cfg, toC04Msg]
+    cases hp : i.parent with
+    | none => simp
+    | some p =>
+      by_cases e : p = m.sender
+      · simp [e]
+      · simp [e]
+  unfold C04.aggregate aggregate
+  rw [hb]
+  by_cases h : ((i.parent == some m.sender) || !i.agg m.ty) = true
+  · simp [h]
+  · simp only [h]
+    have hty : (toC04Msg i m).ty = m.ty := rfl
+    simp only [hty, List.length_append, List.length_map, List.length_cons, List.length_nil]
+    by_cases hf : (q m.ty).length + 0 + 1 = i.nChildren
+    · have hf' : (q m.ty).length + 1 = i.nChildren := by omega
+      simp [hf', toC04Cfg]
+      funext t; by_cases e : t = m.ty <;> simp [e]
+    · have hf' : ¬ (q m.ty).length + 1 = i.nChildren := by omega
+      simp [hf', toC04Cfg]
+      funext t; by_cases e : t = m.ty <;> simp [e]
 
 /-! ### the code regions the model stands for
 Regenerated from /repo's source on every run (`harness/cmd/astfacts` → `OnetVerif/Shapes.lean`): the
